@@ -503,7 +503,9 @@ class Searcher:
         except Exception as e:
             return ('err', type(e).__name__, str(e)[:100])
         try:
-            v = fn(*[k._context[s] for s in syms])
+            import klongpy.compiler as C
+            args = C.compiled_args(k, syms) if hasattr(C, 'compiled_args') else [k._context[s] for s in syms]
+            v = fn(*args)
             return ('ok', U.canon(v), self.P.kg_write(v, k._backend))
         except Exception as e:
             return ('err', type(e).__name__, str(e)[:100])
@@ -796,11 +798,29 @@ def _dict_keys(node):
     return [ast.literal_eval(k) for k in node.keys]
 
 
+def _is_none_test(t, target, negated):
+    """`if <target> is None:` (negated=False) or `if <target> is not None:` (negated=True)"""
+    return (isinstance(t, ast.If) and isinstance(t.test, ast.Compare) and isinstance(t.test.left, ast.Name)
+            and t.test.left.id == target and len(t.test.ops) == 1
+            and isinstance(t.test.ops[0], ast.IsNot if negated else ast.Is)
+            and isinstance(t.test.comparators[0], ast.Constant) and t.test.comparators[0].value is None)
+
+
+def _returns_none(st):
+    return isinstance(st, ast.Return) and isinstance(st.value, ast.Constant) and st.value.value is None
+
+
 def _scan_ir_to_source(fn):
-    """tables and control-flow facts of one backend's `_ir_to_source`"""
+    """tables and control-flow facts of one backend's `_ir_to_source`.
+
+    Inside an `if node_type == K:` branch the operator is looked up in one or more literal
+    dictionaries, each `x = {…}.get(op)` (or `d = {…}; x = d.get(op)`), followed by either
+    `if x is not None: return <code>` (then the next dictionary is tried) or
+    `if x is None: return None` (end of the chain: a missing operator is the interpreter path).
+    The table of K is the union of the dictionaries; `missing_none[K]` says the chain ends in
+    `return None` rather than in a KeyError / unbound name."""
     kinds, tables, missing_none = [], {}, {}
-    default_none = isinstance(fn.body[-1], ast.Return) and isinstance(fn.body[-1].value, ast.Constant) \
-        and fn.body[-1].value.value is None
+    default_none = _returns_none(fn.body[-1])
     for st in fn.body:
         if not (isinstance(st, ast.If) and isinstance(st.test, ast.Compare)
                 and isinstance(st.test.left, ast.Name) and st.test.left.id == 'node_type'):
@@ -808,33 +828,41 @@ def _scan_ir_to_source(fn):
         kind = ast.literal_eval(st.test.comparators[0])
         kinds.append(kind)
         body = st.body
-        for i, s in enumerate(body):
-            d = None
-            target = None
+        keys, chain_ok, terminated = [], True, False
+        i = 0
+        while i < len(body):
+            s = body[i]
+            d = target = None
+            nxt_i = i + 1
             if isinstance(s, ast.Assign) and isinstance(s.value, ast.Call) and isinstance(s.value.func, ast.Attribute) \
                     and s.value.func.attr == 'get' and isinstance(s.value.func.value, ast.Dict):
                 d, target = s.value.func.value, s.targets[0].id                 # x = {…}.get(op)
-            elif isinstance(s, ast.Assign) and isinstance(s.value, ast.Dict):
-                # methods = {…}; method = methods.get(op)
-                nxt = body[i + 1] if i + 1 < len(body) else None
+            elif isinstance(s, ast.Assign) and isinstance(s.value, ast.Dict) and i + 1 < len(body):
+                nxt = body[i + 1]                                                # d = {…}; x = d.get(op)
                 if isinstance(nxt, ast.Assign) and isinstance(nxt.value, ast.Call) \
                         and isinstance(nxt.value.func, ast.Attribute) and nxt.value.func.attr == 'get' \
                         and isinstance(nxt.value.func.value, ast.Name) \
                         and nxt.value.func.value.id == s.targets[0].id:
                     d, target = s.value, nxt.targets[0].id
+                    nxt_i = i + 2
             if d is None:
+                i += 1
                 continue
-            tables[kind] = _dict_keys(d)
-            # the lookup result must be tested for None and lead to `return None`
-            ok = False
-            for t in body[i + 1:]:
-                if isinstance(t, ast.If) and isinstance(t.test, ast.Compare) and isinstance(t.test.left, ast.Name) \
-                        and t.test.left.id == target and isinstance(t.test.ops[0], ast.Is) \
-                        and isinstance(t.test.comparators[0], ast.Constant) and t.test.comparators[0].value is None \
-                        and isinstance(t.body[0], ast.Return) and isinstance(t.body[0].value, ast.Constant) \
-                        and t.body[0].value.value is None:
-                    ok = True
-            missing_none[kind] = ok
+            if terminated:
+                chain_ok = False            # a lookup after the chain was closed: shape not recognised
+            keys += _dict_keys(d)
+            test = body[nxt_i] if nxt_i < len(body) else None
+            if test is not None and _is_none_test(test, target, negated=False) and _returns_none(test.body[0]):
+                terminated = True
+            elif test is not None and _is_none_test(test, target, negated=True) \
+                    and isinstance(test.body[0], ast.Return) and not _returns_none(test.body[0]) and not test.orelse:
+                pass                        # found: return code; otherwise fall through to the next dictionary
+            else:
+                chain_ok = False
+            i = nxt_i + 1
+        if keys:
+            tables[kind] = keys
+            missing_none[kind] = chain_ok and terminated
     return kinds, tables, missing_none, default_none
 
 
